@@ -15,9 +15,9 @@ CLAIMS = {
  "C03": ("asnlint", "static analysis: decision tables extracted from the syntax tree (header / keyword / class / Add / format_tag) composed over the 48-cell configuration space and compared with X.680 31.2.7; the tagging pass evaluated on a type with a tag at nine kinds of position and two depths; CHOICE override, automatic_tags guard and per-module reset evaluated",
          "Exhaustive over the property's finite configuration space (module default x keyword x class); every tag position of the IR is reached by the pass exactly once and rendered; per-module reset is unconditional. Decides these structural clauses, not DER bytes.",
          "Trusted: rasn's derive semantics of tag(..)/automatic_tags; ref/x680_tagging.json. Three recorded findings (no TAGS clause = IMPLICIT is pinned by a unit test; element tags; nested CHOICE positions)."),
- "C04": ("asnlint", "static analysis: abstract evaluation of fold_constraint_set over all order types of two operands on a 6-point end-point alphabet; chains of three and four operands with the tree the lexer's own set_operation production builds (SRC-G nom interpreter) against the X.680 clause 50 / X.691 10.3.21 oracle; exhaustive tables for serial combination, rendering, fixed_size, PER-visibility, signedness per component kind, outer extension marker",
+ "C04": ("asnlint", "static analysis: abstract evaluation of fold_constraint_set over all order types of two operands on a 6-point end-point alphabet; chains of three and four operands with the tree the lexer's own set_operation production builds (SRC-G nom interpreter) against the X.680 clause 50 / X.691 10.3.21 oracle; exhaustive tables for serial combination, rendering, fixed_size, PER-visibility, signedness per component kind; the conversions that carry the outer extension marker (single element, set operation, operand of SIZE, operand behind EXCEPT) evaluated with and without it; end-point terminals of the range productions against X.680 51.4",
          "For every evaluated operand tuple and operator sequence the emitted bound never excludes a permitted value and equals the hull of the union of the intersections; serial constraints intersect; extensible exactly with a marker; references and named numbers are looked up under the governing type.",
-         "Not decided: chains longer than four operands, parenthesised element sets (a syntax error to this lexer). One recorded finding (untyped named-number fallback)."),
+         "Not decided: chains longer than four operands, parenthesised element sets (a syntax error to this lexer). Recorded findings: untyped named-number fallback, element constraints of SEQUENCE OF <reference>, the `<` of an open end point thrown away."),
  "C05": ("asnlint", "static analysis: abstract evaluation of the lexer->IR conversions over opaque elements (sizes 0..2 exhaustive for data-independent code); the per-component closures of the three renderers evaluated for every order relation (index, first-extension index), both EXTENSIBILITY settings and group / non-group names; non_exhaustive and [[ ]] group construction evaluated",
          "Components after the marker, and only those, are additions; a group becomes one optional member holding the grouped components in order (groups of 1..3); non_exhaustive iff marker or EXTENSIBILITY IMPLIED.",
          "Trusted: rasn's extension_addition(_group)/non_exhaustive semantics. One recorded finding (COMPONENTS OF counted into the index)."),
@@ -54,16 +54,16 @@ CLAIMS = {
  "C16": ("asnlint+mirscan", "static analysis: keyword table against rustc's own list (MIR driver); manglers evaluated (guards, case rules on hyphen/digit names); identifier-annotation decision at every emitting fn; raw ASN.1 names reaching identifier construction",
          "Every strict/reserved keyword is escaped; the documented case rules hold on the evaluated names; the original spelling is recorded exactly when it differs.",
          "Trusted: rustc_span's keyword classification. Collisions after mangling are a recorded finding under C01."),
- "C17": ("asnlint", "static analysis: Display, contextualize (with until_next_unindented), ReportData::from and the nom::Err -> LexerError conversion evaluated on concrete reports and texts; Input::slice bookkeeping evaluated on LF / CRLF / CR texts; who-may-write of the position fields; path flow",
+ "C17": ("asnlint", "static analysis: Display, contextualize (with until_next_unindented), ReportData::from and the nom::Err -> LexerError conversion evaluated on concrete reports and texts; Input::slice bookkeeping evaluated on LF / CRLF / CR texts; Input constructors, reset_context, the context_boundary parser, AsnSourceUnit::try_from, asn_spec and Input::src_file evaluated; who-may-write of the position fields",
          "The three renderings show the same line for every evaluated position; line = 1 + line breaks consumed; the source path is reported when there is one. Which position nom selects is not decided.",
-         "A few accessors are compared in normal form."),
+         "What remains syntactic: the who-may-write list of the position fields and the list of text-rewriting methods on the path from the source to the lexer."),
  "C18": ("asnlint", "static analysis: bracket balance of every TypeScript template; category typing of union producers vs []; member / choice / enum / value renderers and the dispatcher evaluated per kind; import-line decision evaluated on spellings",
          "One balanced export per type under its mangled name; `?` iff OPTIONAL / DEFAULT / group, index signature iff extensible, CHOICE as union of single-key objects, fixed-size BIT STRING as string.",
          "Declared-or-imported closure of names is not decided. Three recorded findings (import decision taken from the spelling; INSTANCE OF)."),
- "C19": ("asnlint", "static analysis: who-may-read table of Config fields and derived state; option-dependent templates and the module import evaluated for both values under every combination; From impls, derive lines, custom imports evaluated",
+ "C19": ("asnlint", "static analysis: who-may-read table of Config fields and derived state; option-dependent templates and the module import evaluated for both values under every combination; From impls, derive lines, custom imports evaluated; the derive-annotation parser interpreted character by character (SRC-C) inside Rasn::new against an independent definition of a derive attribute",
          "Every option is read only by the fns of its documented aspect and changes only the documented tokens.",
          "Trusted: audit/config_reads.json."),
- "C20": ("asnlint+mirscan", "static analysis: MIR effect classification and dominators (single delivery call dominated by the Ok edge, must-pass-through); effect model of std's writing primitives evaluated per OutputMode arm; CLI flag, exit-status, builder and module-file tables; typestate setters evaluated",
+ "C20": ("asnlint+mirscan", "static analysis: MIR effect classification and dominators (single delivery call dominated by the Ok edge, must-pass-through); effect model of std's writing primitives evaluated per OutputMode arm; CLI flag, exit-status and builder tables; the directory walk of the CLI evaluated on a modelled walk; the text asn1! hands to the compiler evaluated on modules and snippets; typestate setters evaluated",
          "Every write effect on the compile path is the one delivery of exactly the compiled text to the documented destination, truncating, errors as Err; nothing is written on failure; the CLI and the macro use the library's pipeline. Thorough tier adds compile_fail typestate witnesses.",
          "Not decided: file-system semantics (atomicity, read-only destinations)."),
 }
